@@ -48,7 +48,10 @@ def gen_case(seed, tier):
                 yield from mods(s)
         ms = list(mods(prog["top"]))
         m = cfg.choice(ms)
-        prog["signals"].append({"name": "ctl", "width": 1, "signed": False, "init": 0, "reset_less": False, "role": "ctl"})
+        # (the control may be one bit, two bits - enabled when non-zero - or of shape signed(1) - enabled when -1)
+        kind_c = cfg.choice(["u1", "u1", "u2", "s1"])
+        prog["signals"].append({"name": "ctl", "width": 2 if kind_c == "u2" else 1, "signed": kind_c == "s1", "init": 0,
+                                "reset_less": False, "role": "ctl"})
         m["wrap"].append(["enable", cfg.choice(prog["domains"])["name"], len(prog["signals"]) - 1])
     n = cfg.randint(8, 50) if tier == "quick" else cfg.randint(8, 160)
     steps = progdrv.gen_steps(prog, wl, fl, n, p_reset=fl.choice([0.0, 0.1, 0.2]), p_coincide=fl.choice([0.0, 0.4, 0.8]))
